@@ -6,7 +6,12 @@ package main
 // Program node (JSON array, the same text is sent to the Lean driver):
 //   ["w", id, must]                       tx.Create(&TxItem{ID:id})
 //   ["d", id, must]                       tx.Delete(&TxItem{}, id)
+//   ["u", n, must]                        tx.Model(&TxItem{}).Where("1 = 1").Update("v", n)   (ids unchanged; model: a store-neutral write)
 //   ["q", must]                           tx.Order("id").Find(&items)            (result recorded)
+//   ["end", how, must]                    the transaction is ended UNDERNEATH the running function: how 0 = h.Rollback() inside the
+//                                         function, 1 = the context the transaction was begun with is cancelled and the harness waits
+//                                         until database/sql's watcher has rolled back (InUse == 0; needs an enclosing "keep:WithCancel"
+//                                         derivation, else like 0), 2 = h.Commit() inside the function (end-to-end oracle only)
 //   ["blk", [body…], out, tag, must]      h.Transaction(func(tx) error { body; out })   out 0=return nil 1=return userErr(tag) 2=panic(payload(tag))
 //   ["man", [body…], fin, must]           tx := h.Begin(); …body…; fin 0 = tx.Commit() 1 = tx.Rollback()   (well-behaved caller, see runMan)
 //   ["sp", name, must]                    h.SavePoint("m<name>")
@@ -19,11 +24,14 @@ package main
 import (
 	"context"
 	"database/sql"
+	"database/sql/driver"
 	"encoding/json"
 	"errors"
 	"fmt"
+	"reflect"
 	"sort"
 	"strings"
+	"time"
 
 	sqlite3 "github.com/mattn/go-sqlite3"
 	"gorm.io/driver/sqlite"
@@ -73,11 +81,13 @@ func c04Cfgs() []c04Cfg {
 }
 
 type c04World struct {
-	cfg   c04Cfg
-	db    *gorm.DB
-	rec   *Recorder
-	sqlDB *sql.DB
-	tags  *c04Tags
+	cfg    c04Cfg
+	db     *gorm.DB
+	rec    *Recorder
+	sqlDB  *sql.DB
+	tags   *c04Tags
+	keeper *sql.DB // an unrecorded second pool holding ONE connection open: the shared in-memory database must survive
+	//                connections that database/sql discards (driver.ErrBadConn from COMMIT, cancelled transaction contexts)
 }
 
 func c04Open(cfg c04Cfg) *c04World {
@@ -87,6 +97,11 @@ func c04Open(cfg c04Cfg) *c04World {
 	tags := &c04Tags{}
 	sqlDB := sql.OpenDB(&c04Connector{inner: &recConnector{dsn: dsn, drv: &sqlite3.SQLiteDriver{}, rec: rec}, tags: tags})
 	sqlDB.SetMaxIdleConns(4)
+	keeper := sql.OpenDB(&recConnector{dsn: dsn, drv: &sqlite3.SQLiteDriver{}, rec: &Recorder{Off: true}})
+	keeper.SetMaxOpenConns(1)
+	if err := keeper.Ping(); err != nil {
+		panic(err)
+	}
 	rec.Off = true
 	var pool gorm.ConnPool = sqlDB
 	if cfg.Wrap {
@@ -102,16 +117,21 @@ func c04Open(cfg c04Cfg) *c04World {
 		panic(err)
 	}
 	rec.Off = false
-	return &c04World{cfg: cfg, db: db, rec: rec, sqlDB: sqlDB, tags: tags}
+	return &c04World{cfg: cfg, db: db, rec: rec, sqlDB: sqlDB, tags: tags, keeper: keeper}
 }
 
-func (w *c04World) close() { w.sqlDB.Close() }
+func (w *c04World) close() {
+	w.sqlDB.Close()
+	if w.keeper != nil {
+		w.keeper.Close()
+	}
+}
 
 // reset empties the table (not recorded). A previous run that left the database unusable (a lock held by a statement that
 // escaped its transaction, …) must not take the whole check down: the world is replaced by a fresh one.
 func (w *c04World) reset(initial []int64) {
 	if err := w.tryReset(initial); err != nil {
-		w.sqlDB.Close()
+		w.close()
 		*w = *c04Open(w.cfg)
 		if err := w.tryReset(initial); err != nil {
 			panic(err)
@@ -179,7 +199,7 @@ type c04Node struct {
 
 func (n *c04Node) enc() []interface{} {
 	switch n.K {
-	case "w", "d", "sp", "rb":
+	case "w", "d", "sp", "rb", "u", "end":
 		return []interface{}{n.K, n.ID, n.Must}
 	case "q":
 		return []interface{}{n.K, n.Must}
@@ -210,7 +230,7 @@ func c04Dec(raw []interface{}) (*c04Node, error) {
 	bl := func(i int) bool { b, _ := raw[i].(bool); return b }
 	n := &c04Node{K: k}
 	switch k {
-	case "w", "d", "sp", "rb":
+	case "w", "d", "sp", "rb", "u", "end":
 		n.ID, n.Must = num(1), bl(2)
 	case "q":
 		n.Must = bl(1)
@@ -281,6 +301,195 @@ type c04InjErr struct{ k int }
 
 func (e *c04InjErr) Error() string { return fmt.Sprintf("inj%d", e.k) }
 
+// ---- VALUES. The model treats error values and panic payloads as opaque identities (`user t`, `inj k`, `panic t`); which Go
+// value stands for an identity is chosen HERE, per case (c04Case.PK / EK), from alphabets that contain the values code could be
+// tempted to special-case: sentinel errors, wrapped sentinels, comparable struct values, runtime errors, nil.
+
+type c04ValErr struct{ tag int64 } // comparable struct implementing error by value
+
+func (e c04ValErr) Error() string { return fmt.Sprintf("user%d", e.tag) }
+
+type c04PanicErr struct{ tag int64 } // comparable struct implementing error, used as a panic payload
+
+func (e c04PanicErr) Error() string { return fmt.Sprintf("panic-error-%d", e.tag) }
+
+const c04NPayloadKinds = 11
+const c04NUserErrKinds = 7
+const c04NCommitErrKinds = 7
+
+var c04PayloadKindNames = []string{"*struct", "string", "*errorString", "error-struct-value", "runtime:nil-deref", "runtime:index",
+	"panic(nil)", "wrapped-sentinel-error", "int", "uncomparable-slice", "runtime:type-assertion"}
+var c04UserErrKindNames = []string{"*struct", "sql.ErrTxDone", "wrapped(sql.ErrTxDone)", "gorm.ErrInvalidTransaction", "context.Canceled",
+	"struct-value", "driver.ErrBadConn"}
+var c04CommitErrKindNames = []string{"*c04InjErr", "sql.ErrTxDone", "sql.ErrConnDone", "driver.ErrBadConn", "context.Canceled",
+	"context.DeadlineExceeded", "wrapped(sql.ErrTxDone)"}
+
+// c04Same: identity for pointers, value equality for comparable values, deep equality for the rest (never panics)
+func c04Same(a, b interface{}) (same bool) {
+	defer func() {
+		if recover() != nil {
+			same = reflect.DeepEqual(a, b)
+		}
+	}()
+	return a == b
+}
+
+// throwPayload panics with the payload of identity `tag`; runtime-error kinds are RAISED by the runtime, not constructed
+func (x *c04Exec) throwPayload(tag int64) {
+	kind := int((tag + int64(x.pk)) % c04NPayloadKinds)
+	x.payloadKinds[c04PayloadKindNames[kind]]++
+	switch kind {
+	case 1:
+		panic(fmt.Sprintf("payload-%d", tag))
+	case 2:
+		panic(x.payloadVal(tag, func() interface{} { return errors.New(fmt.Sprintf("payload-error-%d", tag)) }))
+	case 3:
+		panic(c04PanicErr{tag})
+	case 4:
+		var p *c04Payload
+		_ = p.tag // nil dereference: runtime.Error
+	case 5:
+		idx := int(tag % 3)
+		_ = []int{}[idx] // index out of range: runtime.Error
+	case 6:
+		panic(nil) // Go >= 1.21: recovered as *runtime.PanicNilError
+	case 7:
+		panic(x.payloadVal(tag, func() interface{} { return fmt.Errorf("payload-wrapped-%d: %w", tag, sql.ErrTxDone) }))
+	case 8:
+		panic(int(tag))
+	case 9:
+		panic([]int64{tag, tag})
+	case 10:
+		var i interface{} = "not an int"
+		_ = i.(int) // failed type assertion: *runtime.TypeAssertionError
+	}
+	panic(x.payload(tag))
+}
+
+func (x *c04Exec) payloadVal(tag int64, mk func() interface{}) interface{} {
+	if v, ok := x.payloadVals[tag]; ok {
+		return v
+	}
+	v := mk()
+	x.payloadVals[tag] = v
+	return v
+}
+
+// thrown remembers which identity a recovered payload belongs to (first recovery = innermost function)
+func (x *c04Exec) thrown(tag int64, v interface{}) {
+	for _, t := range x.thrownVals {
+		if c04Same(t.v, v) {
+			return
+		}
+	}
+	x.thrownVals = append(x.thrownVals, c04Thrown{tag, v})
+}
+
+func (x *c04Exec) payloadTag(v interface{}) (int64, bool) {
+	for _, t := range x.thrownVals {
+		if c04Same(t.v, v) {
+			return t.tag, true
+		}
+	}
+	return 0, false
+}
+
+type c04Thrown struct {
+	tag int64
+	v   interface{}
+}
+
+// userErrVal: the Go error value of identity `tag`; a raw sentinel can stand for one identity only (first come, first served)
+func (x *c04Exec) userErrVal(tag int64) error {
+	if e, ok := x.userVals[tag]; ok {
+		return e
+	}
+	kind := int((tag + int64(x.pk)) % c04NUserErrKinds)
+	var e error
+	raw := func(v error) error {
+		// a raw sentinel stands for ONE identity per run: not for two user errors, not for a user error and the commit fault
+		switch x.ek % c04NCommitErrKinds {
+		case 1:
+			if v == sql.ErrTxDone {
+				return fmt.Errorf("user%d: %w", tag, v)
+			}
+		case 3:
+			if v == driver.ErrBadConn {
+				return fmt.Errorf("user%d: %w", tag, v)
+			}
+		case 4:
+			if v == context.Canceled {
+				return fmt.Errorf("user%d: %w", tag, v)
+			}
+		}
+		for _, u := range x.userVals {
+			if u == v {
+				return fmt.Errorf("user%d: %w", tag, v) // sentinel already taken: wrap it
+			}
+		}
+		return v
+	}
+	switch kind {
+	case 1:
+		e = raw(sql.ErrTxDone)
+	case 2:
+		e = fmt.Errorf("user%d: %w", tag, sql.ErrTxDone)
+	case 3:
+		e = raw(gorm.ErrInvalidTransaction)
+	case 4:
+		e = raw(context.Canceled)
+	case 5:
+		e = c04ValErr{tag}
+	case 6:
+		e = raw(driver.ErrBadConn)
+	default:
+		e = x.userErr(tag)
+	}
+	x.userKinds[c04UserErrKindNames[kind]]++
+	x.userVals[tag] = e
+	return e
+}
+
+func (x *c04Exec) userTag(err error) (int64, bool) {
+	if err == sql.ErrTxDone || err == gorm.ErrInvalidTransaction {
+		return 0, false // raw sentinels gorm / database/sql produce themselves: read as "txDone" / "invalidTx" on both sides (c04ModelRes)
+	}
+	for t, u := range x.userVals {
+		if c04Same(u, err) {
+			return t, true
+		}
+	}
+	return 0, false
+}
+
+// commitFaultVal: the value a failed COMMIT returns (other driver calls always fail with *c04InjErr)
+func (x *c04Exec) commitFaultVal(k int) error {
+	var e error
+	switch x.ek % c04NCommitErrKinds {
+	case 1:
+		e = sql.ErrTxDone
+	case 2:
+		e = sql.ErrConnDone
+	case 3:
+		e = driver.ErrBadConn
+	case 4:
+		e = context.Canceled
+	case 5:
+		e = context.DeadlineExceeded
+	case 6:
+		e = fmt.Errorf("inj%d: %w", k, sql.ErrTxDone)
+	default:
+		e = &c04InjErr{k}
+	}
+	x.injVals = append(x.injVals, c04Inj{k, e})
+	return e
+}
+
+type c04Inj struct {
+	k int
+	v error
+}
+
 type c04BlockObs struct {
 	Path     string      // position of the block in the tree
 	FnRan    bool        // fc was entered
@@ -314,6 +523,21 @@ type c04Exec struct {
 	escaped  bool    // (verdict already given)
 	conds    []int64 // chained `id <> ?` conditions carried by the handle lineage being used
 	disL     bool    // Session{DisableNestedTransaction: true} was applied in the handle lineage being used
+
+	pk, ek       int // value alphabets of this case: payload / user-error kind offset, commit-fault value kind
+	payloadVals  map[int64]interface{}
+	thrownVals   []c04Thrown
+	userVals     map[int64]error
+	injVals      []c04Inj
+	payloadKinds map[string]int
+	userKinds    map[string]int
+	reuse        bool                 // the handle being used is a chained (clone = 0) handle kept in a variable
+	lastRes      *gorm.DB             // the *gorm.DB returned by the last Create (a chained handle, too)
+	cancels      []context.CancelFunc // cancel functions of the enclosing "keep:WithCancel" derivations
+	quirkB       map[int]bool         // failed implicit BEGINs issued through a reused chained handle outside a transaction
+	ended        string               // the outermost transaction being executed was ended underneath: "" | "rollback" | "commit"
+	endKinds     map[string]int
+	updSeq       int64
 }
 
 func c04Tok(ev *Event) string {
@@ -362,12 +586,18 @@ func (x *c04Exec) fault(idx int, ev *Event) error {
 		x.verdict("call %d (%s %q) was issued through a handle of transaction #%d but ran %s: it escapes the block's commit/rollback", k, t, ev.SQL, x.txOrd, where)
 	}
 	hit := x.mask[k] && t != "R" && (t != "T" || x.allowRb)
+	if hit && t == "B" && x.reuse && !x.opInTx {
+		x.quirkB[k] = true
+	}
 	if hit {
 		x.trace = append(x.trace, t+"!")
 		x.faulted = append(x.faulted, t)
 		x.nFaulted++
 		if t == "T" {
 			x.rbFault = true
+		}
+		if t == "C" {
+			return x.commitFaultVal(k)
 		}
 		return &c04InjErr{k}
 	}
@@ -401,7 +631,14 @@ func (x *c04Exec) use(h *gorm.DB) {
 
 // body runs the children in order on handle h; panics propagate
 func (x *c04Exec) body(h *gorm.DB, inTx bool, path string, nodes []*c04Node) error {
+	return x.bodyFrom(h, inTx, path, nodes, 0)
+}
+
+func (x *c04Exec) bodyFrom(h *gorm.DB, inTx bool, path string, nodes []*c04Node, from int) error {
 	for i, n := range nodes {
+		if i < from {
+			continue
+		}
 		err := x.guarded(h, inTx, fmt.Sprintf("%s.%d", path, i), n)
 		if err != nil && n.Must {
 			return err
@@ -432,9 +669,17 @@ func (x *c04Exec) child(h *gorm.DB, inTx bool, path string, n *c04Node) error {
 		var err error
 		done := true
 		if n.K == "w" {
-			err = h.Create(&TxItem{ID: n.ID}).Error
+			res := h.Create(&TxItem{ID: n.ID})
+			x.lastRes = res
+			err = res.Error
 		} else {
-			res := h.Delete(&TxItem{}, n.ID)
+			hd := h
+			if x.reuse {
+				// on a chained handle kept in a variable an earlier Create left ITS record in Statement.Model, which Delete
+				// would add to the WHERE; the caller names the model again (user code; getInstance returns the same handle)
+				hd = h.Model(&TxItem{})
+			}
+			res := hd.Delete(&TxItem{}, n.ID)
 			err = res.Error
 			// the reference is advanced from the observed result of the operation: a DELETE that reports 0 rows (missing
 			// key, or a key excluded by the handle's own chained conditions) removed nothing
@@ -443,6 +688,14 @@ func (x *c04Exec) child(h *gorm.DB, inTx bool, path string, n *c04Node) error {
 		x.ref.write(inTx, n.K == "w", n.ID, err == nil && done)
 		x.expectNilUnlessFaulted(path, n.K, err, f0)
 		return err
+	case "u":
+		x.use(h)
+		x.updSeq++
+		err := h.Model(&TxItem{}).Where("1 = 1").Update("v", x.updSeq).Error
+		x.expectNilUnlessFaulted(path, n.K, err, f0)
+		return err
+	case "end":
+		return x.runEnd(h, inTx, path, n)
 	case "q":
 		x.use(h)
 		var items []TxItem
@@ -519,6 +772,9 @@ func (x *c04Exec) verdict(format string, a ...interface{}) {
 // "leaves the enclosing transaction usable": an operation none of whose own driver calls was failed must succeed
 // (generators never produce key conflicts; a RollbackTo of a name that is not live may fail legitimately)
 func (x *c04Exec) expectNilUnlessFaulted(path, kind string, err error, f0 int) {
+	if x.ended != "" && x.opInTx {
+		return // the transaction was ended underneath the function: its handles legitimately answer sql.ErrTxDone / a context error
+	}
 	if err != nil && x.nFaulted == f0 {
 		x.verdict("%s: %s returned %q although none of its driver calls failed (handle unusable)", path, kind, err.Error())
 	}
@@ -539,7 +795,15 @@ func (x *c04Exec) commitSince(p int) (issued, ok bool) {
 
 func (x *c04Exec) isInjected(err error) bool {
 	var ie *c04InjErr
-	return errors.As(err, &ie)
+	if errors.As(err, &ie) {
+		return true
+	}
+	for _, iv := range x.injVals {
+		if errors.Is(err, iv.v) {
+			return true
+		}
+	}
+	return false
 }
 
 func (x *c04Exec) runBlk(h *gorm.DB, inTx bool, path string, n *c04Node) (ret error) {
@@ -565,6 +829,9 @@ func (x *c04Exec) runBlk(h *gorm.DB, inTx bool, path string, n *c04Node) (ret er
 		}
 		x.opInTx = inTx
 		x.judgeBlk(path, nested, dis, obs, mark, fnEndTrace, f0)
+		if !nested {
+			x.ended = ""
+		}
 		if !done {
 			panic(r)
 		}
@@ -576,6 +843,7 @@ func (x *c04Exec) runBlk(h *gorm.DB, inTx bool, path string, n *c04Node) (ret er
 			mark = x.ref.enterNested(dis)
 		} else {
 			x.ref.begin()
+			x.ended = ""
 			x.w.tags.mu.Lock()
 			x.txOrd = x.w.tags.nBegun
 			x.w.tags.mu.Unlock()
@@ -585,6 +853,7 @@ func (x *c04Exec) runBlk(h *gorm.DB, inTx bool, path string, n *c04Node) (ret er
 			if obs.FnRet == "panic" {
 				r := recover()
 				obs.FnPanic = r
+				x.thrown(n.ID, r) // (a payload coming up from a child is already registered under the child's identity)
 				panic(r)
 			}
 		}()
@@ -594,11 +863,11 @@ func (x *c04Exec) runBlk(h *gorm.DB, inTx bool, path string, n *c04Node) (ret er
 		}
 		switch n.Out {
 		case 1:
-			e := x.userErr(n.ID)
+			e := x.userErrVal(n.ID)
 			obs.FnRet, obs.FnErr = "err", e
 			return e
 		case 2:
-			panic(x.payload(n.ID))
+			x.throwPayload(n.ID)
 		}
 		if tx.Error != nil {
 			x.stale = true // returning nil on a handle whose Error is set: gorm will Commit on it
@@ -624,7 +893,7 @@ func (x *c04Exec) judgeBlk(path string, nested, dis bool, obs *c04BlockObs, mark
 			x.verdict("%s: Transaction panicked (%v) before running the function", path, obs.Payload)
 		} else if obs.Ret == nil {
 			x.verdict("%s: Transaction returned nil without running the function", path)
-		} else if x.nFaulted == f0 {
+		} else if x.nFaulted == f0 && !(nested && x.ended != "") {
 			x.verdict("%s: Transaction refused to start (%q) although no driver call failed (handle unusable)", path, obs.Ret.Error())
 		}
 		return
@@ -636,6 +905,16 @@ func (x *c04Exec) judgeBlk(path string, nested, dis bool, obs *c04BlockObs, mark
 			keep = true
 			if obs.Panicked || obs.Ret != nil {
 				x.verdict("%s: nested function returned nil but Transaction returned %v / panicked=%v", path, obs.Ret, obs.Panicked)
+			}
+		} else if x.ended != "" {
+			// the transaction was ended UNDERNEATH a function that returns nil. Rolled back (Rollback inside the function,
+			// cancelled context): nothing of the block is durable, so Transaction must not report success — any non-nil
+			// error is accepted. Committed by the function itself: everything is durable already; the property does not say
+			// what Transaction returns then (nil or the error of its own, impossible, commit) — only that it does not panic.
+			if obs.Panicked {
+				x.verdict("%s: function returned nil but Transaction panicked (%v)", path, obs.Payload)
+			} else if x.ended == "rollback" && obs.Ret == nil {
+				x.verdict("%s: the transaction had been rolled back underneath the function (nothing is durable) and the function returned nil, but Transaction returned nil: a commit that did not happen is reported as success", path)
 			}
 		} else {
 			issued, ok := x.commitSince(fnEnd)
@@ -654,11 +933,11 @@ func (x *c04Exec) judgeBlk(path string, nested, dis bool, obs *c04BlockObs, mark
 			}
 		}
 	case "err":
-		if obs.Panicked || obs.Ret != obs.FnErr {
+		if obs.Panicked || !c04Same(obs.Ret, obs.FnErr) {
 			x.verdict("%s: function returned error %v, Transaction returned %v (panicked=%v): not the same value", path, obs.FnErr, obs.Ret, obs.Panicked)
 		}
 	case "panic":
-		if !obs.Panicked || obs.Payload != obs.FnPanic {
+		if !obs.Panicked || !c04Same(obs.Payload, obs.FnPanic) {
 			x.verdict("%s: function panicked with %v, Transaction panicked=%v payload %v: not the same value", path, obs.FnPanic, obs.Panicked, obs.Payload)
 		}
 	}
@@ -671,7 +950,7 @@ func (x *c04Exec) judgeBlk(path string, nested, dis bool, obs *c04BlockObs, mark
 
 // runMan: a WELL-BEHAVED caller of the manual API (this is user code, not gorm code):
 //   tx := h.Begin(); if tx.Error != nil { return tx.Error }
-//   defer func() { if r := recover(); r != nil { tx.Rollback(); panic(r) } }()
+//   done := false; defer func() { if !done { r := recover(); tx.Rollback(); panic(r) } }()
 //   if err := body(tx); err != nil { tx.Rollback(); return err }
 //   return tx.Commit().Error   |   return tx.Rollback().Error
 func (x *c04Exec) runMan(h *gorm.DB, inTx bool, path string, n *c04Node) error {
@@ -688,18 +967,23 @@ func (x *c04Exec) runMan(h *gorm.DB, inTx bool, path string, n *c04Node) error {
 		x.verdict("%s: Begin on a transaction handle succeeded", path)
 	}
 	x.ref.begin()
+	x.ended = ""
 	x.w.tags.mu.Lock()
 	x.txOrd = x.w.tags.nBegun
 	x.w.tags.mu.Unlock()
-	defer func() { x.txOrd = 0; x.opInTx = inTx }()
+	defer func() { x.txOrd = 0; x.opInTx = inTx; x.ended = "" }()
+	bodyDone := false
 	defer func() {
-		if r := recover(); r != nil {
+		if !bodyDone { // (not `recover() != nil`: go.mod < 1.21 keeps panic(nil) recoverable as nil)
+			r := recover()
 			tx.Rollback()
 			x.ref.end(false)
 			panic(r)
 		}
 	}()
-	if err := x.body(tx, true, path, n.Body); err != nil {
+	berr := x.body(tx, true, path, n.Body)
+	bodyDone = true
+	if err := berr; err != nil {
 		tx.Rollback()
 		x.ref.end(false)
 		return err
@@ -710,6 +994,10 @@ func (x *c04Exec) runMan(h *gorm.DB, inTx bool, path string, n *c04Node) error {
 		err := tx.Commit().Error
 		issued, ok := x.commitSince(p)
 		switch {
+		case x.ended != "":
+			if x.ended == "rollback" && err == nil {
+				x.verdict("%s: tx.Commit() returned nil although the transaction had been rolled back underneath", path)
+			}
 		case !issued:
 			x.verdict("%s: tx.Commit() issued no COMMIT", path)
 		case ok && err != nil:
@@ -717,12 +1005,14 @@ func (x *c04Exec) runMan(h *gorm.DB, inTx bool, path string, n *c04Node) error {
 		case !ok && err == nil:
 			x.verdict("%s: COMMIT failed but tx.Commit() returned nil", path)
 		}
-		x.ref.end(issued && ok)
+		if x.ended == "" {
+			x.ref.end(issued && ok)
+		}
 		return err
 	}
 	err := tx.Rollback().Error
 	x.ref.end(false)
-	if err != nil {
+	if err != nil && x.ended == "" {
 		x.verdict("%s: tx.Rollback() returned %q", path, err.Error())
 	}
 	return err
@@ -832,9 +1122,54 @@ type c04Obs struct {
 	TxOf   []int         `json:"txof"`
 	Reads  [][]int64     `json:"reads"`
 	Stale  bool          `json:"stale"`
-	exec   *c04Exec
-	retErr error
-	retPan interface{}
+	exec     *c04Exec
+	retErr   error
+	retPan   interface{}
+	panicked bool
+}
+
+// errAtoms: like c04ErrAtoms, but a piece that is the text of the value a failed COMMIT of this run returned is that
+// injected value (`inj<k>`), whatever Go value stood for it
+func (x *c04Exec) errAtoms(err error) []interface{} {
+	out := c04ErrAtoms(err)
+	if err == nil {
+		return out
+	}
+	// gorm quirk on a chained handle REUSED outside a transaction (not a matter of this property): the Statement keeps the
+	// "gorm:started_transaction" mark of its previous operation, so when the implicit BEGIN of the next one fails,
+	// CommitOrRollbackTransaction still calls Rollback on the pool and ErrInvalidTransaction is joined to the BEGIN error
+	for i := 0; i+1 < len(out); i++ {
+		var k int
+		if s, ok := out[i].(string); ok && out[i+1] == "invalidTx" {
+			if _, e := fmt.Sscanf(s, "inj%d", &k); e == nil && x.quirkB[k] {
+				out = append(out[:i+1], out[i+2:]...)
+			}
+		}
+	}
+	pieces := strings.Split(err.Error(), "; ")
+	switch ek := x.ek % c04NCommitErrKinds; {
+	case ek == 1:
+		return out // the injected value IS sql.ErrTxDone: indistinguishable from a genuine one, both read "txDone" (see c04ModelRes)
+	case ek >= 2 && ek <= 5:
+		// one shared sentinel stands for every failed COMMIT of the run: which COMMIT it was is pinned by the trace
+		for i, piece := range pieces {
+			if len(x.injVals) > 0 && piece == x.injVals[0].v.Error() && i < len(out) {
+				out[i] = "cfault"
+			}
+		}
+		return out
+	}
+	used := map[int]bool{}
+	for i, piece := range pieces {
+		for j, iv := range x.injVals {
+			if !used[j] && iv.v.Error() == piece && i < len(out) {
+				used[j] = true
+				out[i] = fmt.Sprintf("inj%d", iv.k)
+				break
+			}
+		}
+	}
+	return out
 }
 
 func c04ErrAtoms(err error) []interface{} {
@@ -860,9 +1195,11 @@ func c04ErrAtoms(err error) []interface{} {
 }
 
 // c04Run executes the top-level body on the root handle of world w (table reset to `initial`) with fault mask.
-func c04Run(w *c04World, initial []int64, body []*c04Node, mask []int, allowRb bool) *c04Obs {
+func c04Run(w *c04World, initial []int64, body []*c04Node, mask []int, allowRb bool, pk, ek int) *c04Obs {
 	w.reset(initial)
-	x := &c04Exec{w: w, mask: map[int]bool{}, allowRb: allowRb, users: map[int64]*c04UserErr{}, payloads: map[int64]*c04Payload{}}
+	x := &c04Exec{w: w, mask: map[int]bool{}, allowRb: allowRb, users: map[int64]*c04UserErr{}, payloads: map[int64]*c04Payload{},
+		pk: pk, ek: ek, payloadVals: map[int64]interface{}{}, userVals: map[int64]error{}, payloadKinds: map[string]int{},
+		userKinds: map[string]int{}, endKinds: map[string]int{}, quirkB: map[int]bool{}}
 	x.ref.committed = map[int64]bool{}
 	for _, id := range initial {
 		x.ref.committed[id] = true
@@ -875,25 +1212,33 @@ func c04Run(w *c04World, initial []int64, body []*c04Node, mask []int, allowRb b
 	w.rec.mu.Unlock()
 	o := &c04Obs{exec: x}
 	func() {
+		done := false
 		defer func() {
-			if r := recover(); r != nil {
-				o.retPan = r
+			if !done {
+				o.retPan = recover() // may be nil-valued only before Go 1.21 (panic(nil))
+				o.panicked = true
 			}
 		}()
 		o.retErr = x.body(w.db, false, "r", body)
+		done = true
 	}()
 	w.rec.mu.Lock()
 	w.rec.Fault = nil
 	w.rec.mu.Unlock()
 	switch {
-	case o.retPan != nil:
-		if p, ok := o.retPan.(*c04Payload); ok {
-			o.Res = []interface{}{"panic", p.tag}
+	case o.panicked:
+		// identity of the payload = the block whose function raised it (registered where it was first recovered)
+		if tag, ok := x.payloadTag(o.retPan); ok {
+			o.Res = []interface{}{"panic", tag}
 		} else {
-			o.Res = []interface{}{"panic", fmt.Sprint(o.retPan)}
+			o.Res = []interface{}{"panic", fmt.Sprintf("unknown payload %T %v", o.retPan, o.retPan)}
 		}
 	case o.retErr != nil:
-		o.Res = append([]interface{}{"err"}, c04ErrAtoms(o.retErr)...)
+		if tag, ok := x.userTag(o.retErr); ok {
+			o.Res = []interface{}{"err", fmt.Sprintf("user%d", tag)}
+		} else {
+			o.Res = append([]interface{}{"err"}, x.errAtoms(o.retErr)...)
+		}
 	default:
 		o.Res = []interface{}{"ok"}
 	}
@@ -938,6 +1283,7 @@ type c04CtxKey struct{}
 
 // single-use derivations return a clone = 0 handle (gorm: "do not reuse"): exactly one operation is issued on them
 var c04SingleUse = map[string]bool{
+	"chain:Finisher": true,
 	"chain:Model": true, "chain:Table": true, "chain:Set": true, "initialized:Session": true, "chain:Select": true, "where:Ne": true,
 }
 
@@ -1016,6 +1362,52 @@ func c04Derive(h *gorm.DB, kind string, arg int64) *gorm.DB {
 	panic("bad derive kind " + kind)
 }
 
+// runEnd: the transaction is ended underneath the running function (see the header). The reference is advanced from what
+// was observed: a successful Rollback / a finished background rollback discards the working store, a successful Commit keeps it.
+func (x *c04Exec) runEnd(h *gorm.DB, inTx bool, path string, n *c04Node) error {
+	x.use(h)
+	how := n.ID
+	if how == 1 && len(x.cancels) == 0 {
+		how = 0
+	}
+	x.endKinds[[]string{"Rollback() inside the function", "context cancelled, background rollback finished", "Commit() inside the function"}[how]]++
+	was := x.ended
+	switch how {
+	case 1:
+		x.cancels[len(x.cancels)-1]()
+		deadline := time.Now().Add(3 * time.Second)
+		for x.w.sqlDB.Stats().InUse != 0 && time.Now().Before(deadline) {
+			time.Sleep(20 * time.Microsecond)
+		}
+		if was == "" {
+			x.ref.end(false)
+			x.ended = "rollback"
+		}
+		return h.Error // (what `h.Rollback().Error` reports besides: the error the handle already carried)
+	case 2:
+		p := len(x.trace)
+		err := h.Commit().Error
+		issued, ok := x.commitSince(p)
+		if was == "" {
+			x.ref.end(issued && ok && err == nil)
+			x.ended = "commit"
+			if !(issued && ok && err == nil) {
+				x.ended = "rollback"
+			}
+		}
+		return err
+	}
+	err := h.Rollback().Error
+	if was == "" {
+		x.ref.end(false)
+		x.ended = "rollback"
+		if err != nil {
+			x.verdict("%s: Rollback() inside the function returned %q", path, err.Error())
+		}
+	}
+	return err
+}
+
 // runDv: user code derives a handle and keeps working through it; for the PROPERTY the derived handle is the same
 // transaction (or the same pool) as the handle it came from
 func (x *c04Exec) runDv(h *gorm.DB, inTx bool, path string, n *c04Node) error {
@@ -1027,6 +1419,28 @@ func (x *c04Exec) runDv(h *gorm.DB, inTx bool, path string, n *c04Node) error {
 		x.disL = true
 	case strings.HasPrefix(n.Kind, "where:"):
 		x.conds = append(append([]int64{}, x.conds...), n.ID)
+	}
+	savedReuse := x.reuse
+	defer func() { x.reuse = savedReuse }()
+	x.reuse = c04SingleUse[n.Kind]
+	switch n.Kind {
+	case "chain:Finisher":
+		// the *gorm.DB RETURNED by a finisher is a chained handle as well: `r := h.Create(&a); r.Create(&b)`
+		if len(n.Body) == 0 || n.Body[0].K != "w" {
+			panic("chain:Finisher needs a leading create")
+		}
+		x.reuse = false
+		if err := x.guarded(h, inTx, path+".0", n.Body[0]); err != nil && n.Body[0].Must {
+			return err
+		}
+		x.reuse = true
+		x.opInTx = inTx
+		return x.bodyFrom(x.lastRes, inTx, path, n.Body, 1)
+	case "keep:WithCancel":
+		ctx, cancel := context.WithCancel(context.WithValue(context.Background(), c04CtxKey{}, n.Kind))
+		x.cancels = append(x.cancels, cancel)
+		defer func() { x.cancels = x.cancels[:len(x.cancels)-1]; cancel() }()
+		return x.body(h.WithContext(ctx), inTx, path, n.Body)
 	}
 	h2 := c04Derive(h, n.Kind, n.ID)
 	return x.body(h2, inTx, path, n.Body)
